@@ -117,6 +117,51 @@ def run(ctx):
                          'rerun commands do not carry rerun=True and the '
                          'reset flag', ctx.loc(f, c))
 
+    # ---- R5 rerun makes the task unprocessed again -----------------------------
+    r5 = ctx.rule('R5', 'a finished task that is put back to RUNNING is '
+                  'marked unprocessed (resume and completion look for '
+                  '"completed and not processed")', 'GD')
+
+    def proc_arg(c):
+        k = U.kwarg(c, 'processed')
+        if k is None and len(c.args) >= 3:
+            k = c.args[2]
+        return k
+    n_sites = 0
+    for q in (RT + '._run_existing',
+              'mistral.engine.task_handler.mark_task_running'):
+        f = prog.func(q)
+        fcfg = ctx.cfg(f)
+        for n, c in U.calls_in(fcfg, 'set_state'):
+            if not c.args or norm(c.args[0]) != 'states.RUNNING':
+                continue
+            n_sites += 1
+            k = proc_arg(c)
+            r5.check(k is not None and norm(k) == 'False',
+                     ctx.construct(f, extra='processed=False'),
+                     'the task goes back to RUNNING keeping processed=True '
+                     'from its previous attempt: if the workflow is paused '
+                     'when the new attempt completes, resume does not find '
+                     'the task and its successors never run', ctx.loc(f, c))
+    if n_sites < 2:
+        raise AnalysisError('C12.R5: set_state(RUNNING) sites lost')
+    ts = prog.func('mistral.engine.tasks.Task.set_state')
+    tcfg = ctx.cfg(ts)
+    st = [x for t, x in U.attr_stores(ts.node)
+          if norm(t) == 'self.task_ex.processed']
+    okp = False
+    for x in st:
+        sn = tcfg.stmt_node(x)
+        okp = okp or (norm(x.value) == 'processed' and
+                      U.guarded(tcfg, sn, 'processed is None', False) and
+                      all('processed' in norm(a_) or
+                          U.phas(a_, 'task_ex is None') or
+                          'cur_state' in norm(a_) or 'state_info' in norm(a_)
+                          for a_, t_ in U.guard_atoms(tcfg, sn)))
+    r5.check(okp, ctx.construct(ts, extra='stores processed'),
+             'Task.set_state does not store a given processed flag on '
+             'every successful state change', ctx.loc(ts))
+
     # ---- R3 rerun order ----------------------------------------------------------------
     r3 = ctx.rule('R3', 'rerun puts the workflow tree back to RUNNING '
                   'before computing commands and continues', 'PAIR')
@@ -199,8 +244,9 @@ def run(ctx):
     r4.check(bool(un) and all(norm(s.value) == 'False' for s in un),
              ctx.construct(ra, extra='un-accept'),
              'selected executions are not un-accepted', ctx.loc(ra))
-    from mstatic.rules import c07
+    from mstatic.rules import c07, shared
     c07.child_collections(ctx, r4)
+    shared.affected_tasks_cover_completed(ctx, r4)
     sk = prog.func('mistral.engine.task_handler.skip_task')
     calls = [n for n in own_nodes(sk.node) if isinstance(n, ast.Call) and
              U.call_name(n) == 'complete']
